@@ -153,12 +153,13 @@ func Main() {
 			scratchRoot = d
 		}
 	}
-	r.SetRule("evaluation = one message handed to Reactor.Receive of a reactor built as in production around a live node (4-validator simulated network; victim caught up at some consensus step, at the initial height, or fast-syncing), sent by a stub peer connected through the real switch (+ one raw frame written to a real MConnection in groups mconn and mconn-stream, + one encode/decode round trip of a generated well-formed message in group roundtrip, + one block pair given to the block-sync processor in group blocksync-processor); non-trivial = a distinct mutated message (reactor, type, mutation, peer-state prelude) that passed decoding and validation, i.e. reached the handler and the live state instead of being refused at the door, or a frame sequence whose outcome the reference model predicted exactly, or a distinct stream of fragments without EOF (channels, fragment size, interleaving) judged against the capacity model, or a distinct multi-peer script of the life cycle of announced transactions (announce, wait, request, reply / no reply / peer leaves, delivery by another peer) that ran to its end")
+	r.SetRule("evaluation = one message handed to Reactor.Receive of a reactor built as in production around a live node (4-validator simulated network; victim caught up at some consensus step, at the initial height, or fast-syncing), sent by a stub peer connected through the real switch (+ one raw frame written to a real MConnection in groups mconn and mconn-stream, + one encode/decode round trip of a generated well-formed message in group roundtrip, + one block pair given to the block-sync processor in group blocksync-processor); non-trivial = a distinct mutated message (reactor, type, mutation, peer-state prelude) that passed decoding and validation, i.e. reached the handler and the live state instead of being refused at the door, or a frame sequence whose outcome the reference model predicted exactly, or a distinct stream of fragments without EOF (channels, fragment size, interleaving) judged against the capacity model, or a distinct multi-peer script of the life cycle of announced transactions (announce, wait, request, reply / no reply / peer leaves, delivery by another peer) that ran to its end, or a distinct multi-peer script of a block sync in which one peer withheld the lowest pending blocks (group blocksync-withheld-lowest) that ran to its end")
 	r.Assume("the attacker is any network peer and additionally holds the key of ONE of the four validators (index 3): messages that need a validator signature are signed with that key; honest validators' messages are only replayed")
 	r.Assume("messages longer than the channel's RecvMessageCapacity are not handed to Receive (the connection layer refuses them: judged in groups mconn and mconn-stream)")
 	r.Assume("group mconn-stream: a peer may send PacketMsg fragments with EOF=false for ever, on one or several channels (every channel of every reactor: capacities from 64 kB to 100 MB), interleaved with complete messages on other channels. Model: the bytes buffered for an unfinished message never exceed the channel's RecvMessageCapacity; the fragment that would exceed it ends the connection with an error (exactly the capacity is allowed, terminated or not). Verdicts are decided by counting: the connection handles frames in the order written, so a complete message that is DELIVERED after the model's bound proves that all fragments written before it were accepted (the peer then goes on to at least 16x the capacity / 48 MB, 8 MB past the 100 MB block-sync channel in the quick tier); neither error nor delivery within 60 s is inconclusive, never a violation. Live heap after the stream (after a collection) must not exceed twice the capacities of the channels used + 24 MB")
 	r.Assume("group txpool-fetch-lifecycle: about twenty scripts per case run side by side on one node (own stub peers and transactions each, one shared bystander peer that only delivers): directed scripts = (stage at which the announcer leaves: before the request / request in flight / after its reply / after the 5 s request timeout / never) x (delivered afterwards by: nobody / a bystander's broadcast / a bystander's PooledTransactions / the other announcer) x (sole / second announcer), plus duplicate announcements, replies with other transactions than requested, transactions nobody announced, stolen deliveries, late joiners; random scripts over the same alphabet. Peers leave by disconnecting or by being stopped for an undecodable message. Every step that depends on the node's request is executed after that request was observed in the stub peer's outbox")
-	r.Assume("wall clock is used only in watchdogs that decide 'hang' (30 s per Receive call, 10 s per gossip iteration pair, 5 s per mutex probe, all confirmed by a goroutine dump inside go-kardia code), to time the disconnects of group txpool-fetch-race against the fetcher's 500 ms wall-clock timer, and as a stimulus in group txpool-fetch-lifecycle (sleeping past the fetcher's 500 ms arrival timeout and its 5 s request timeout, once per case)")
+	r.Assume("group blocksync-withheld-lowest: the node block-syncs through its real reactor (scheduler, processor, event loop; tickers 20 ms / 1 s / 10 s; production peer timeout 15 s) from two to four stub peers that report a chain 5-9 blocks above the node's: honest peers answer every block request read from their outbox (repeated ones too) with the genuine block after a latency of 0-200 ms and join at the start, later, shortly before or after the timeout; the withholder answers likewise except for the lowest one or two pending heights, which it never answers / answers 1.5 s after the timeout / 2.5 s before it / once the node has asked another peer / or it disconnects 3 s after the request / 1.5 s after the timeout; optionally a peer that connects and never reports a status. A case ends when the node has applied block top-1 and every scripted action is done, at the latest 8 s after the peer timeout. How far the node synced is evidence only")
+	r.Assume("wall clock is used only in watchdogs that decide 'hang' (30 s per Receive call, 10 s per gossip iteration pair, 5 s per mutex probe, all confirmed by a goroutine dump inside go-kardia code), to time the disconnects of group txpool-fetch-race against the fetcher's 500 ms wall-clock timer, and as a stimulus in group txpool-fetch-lifecycle (sleeping past the fetcher's 500 ms arrival timeout and its 5 s request timeout, once per case) and in group blocksync-withheld-lowest (peer latencies, and waiting past the block-sync scheduler's 15 s peer timeout, once per case)")
 	r.Assume("the per-peer gossip goroutines are scheduled by the Go runtime: a replay re-runs the whole case (same seed, group, index), which rebuilds the same network, node state and message list; the interleaving with gossip iterations may differ")
 	only := os.Getenv("C18_ONLY")
 	tg := time.Now()
@@ -191,6 +192,10 @@ func Main() {
 	if only == "" || only == "proc" {
 		syncProcessor(r)
 		lap("syncProcessor")
+	}
+	if only == "" || only == "withheld" {
+		withheldLowest(r)
+		lap("withheldLowest")
 	}
 	if only == "" || only == "conc" {
 		concurrentGroup(r)
@@ -237,6 +242,14 @@ func Main() {
 			"fetch_duplicate_announcements": 15, "fetch_deliveries_of_never_announced_transactions": 30, "fetch_replies:reply-other:request-in-flight": 5,
 			"fetch_peers_left:stopped-for-error": 20} {
 			r.Floor(k, v)
+		}
+		// block sync with a withholding peer (group blocksync-withheld-lowest). A child process that dies takes its counters
+		// with it (the death itself is the violation): the floors are applied when every case of the group ran to its end
+		if r.Counter("wh_cases") >= int64(r.N(len(whDirected()), whThorough)) {
+			for k, v := range map[string]int64{"wh_block_requests_seen": 30, "wh_blocks_served": 25, "wh_heights_withheld": 3, "wh_re_requests_after_the_peer_timeout": 5,
+				"wh_re_requests_of_heights_already_delivered": 8, "wh_cases_synced_as_far_as_the_reported_chain_allows": 2, "wh_probe_status_answers": 3} {
+				r.Floor(k, v)
+			}
 		}
 	}
 	r.Finish()
